@@ -1,4 +1,4 @@
 From Coq Require Import Extraction ExtrOcamlBasic ExtrOcamlString.
 From Oras Require Import Base.Prelude Model.FindRoots.
 Extraction Language OCaml.
-Extraction "xc03.ml" find_roots find_roots_e find_roots_fp find_preds_custom dfs_log find_roots_run find_preds_g find_preds_custom_g find_preds fetch_artifact_type fetch_annotations fuel_for extended_copy extended_copy_x resolve_tag.
+Extraction "xc03.ml" find_roots find_roots_e find_roots_custom_e find_roots_fp find_preds_custom dfs_log find_roots_run find_preds_g find_preds_custom_g find_preds fetch_artifact_type fetch_annotations fuel_for extended_copy extended_copy_x resolve_tag.
